@@ -75,16 +75,74 @@ pub fn write_in_bound_f32<const F: u128>(v: f32, o: &Options, breaks: Option<(i3
     Ok(n)
 }
 
+/// Emit-level contract (skips Dragonbox `to_decimal`): decimal digits `mant` with scientific exponent `sci` are laid out
+/// by the real emit function selected by the documented dispatch rule into a buffer of exactly
+/// `buffer_size_const - 1` bytes (one byte is taken by the sign of a negative float).
+#[cfg(not(feature = "compact"))]
+pub fn emit_in_bound(mant: u64, sci: i32, o: &Options, nb: i32, pb: i32) -> Result<usize, &'static str> {
+    use lexical_util::extended_float::ExtendedFloat;
+    use lexical_write_float::algorithm::{write_float_negative_exponent, write_float_positive_exponent, write_float_scientific};
+    const F: u128 = lexical_util::format::STANDARD;
+    let bound = o.buffer_size_const::<f64, F>();
+    if bound > CAP || bound < 2 { return Err("bound fits the harness buffer (harness limit)"); }
+    let mut nd = 1i32; let mut t = mant; while t >= 10 { t /= 10; nd += 1; }
+    let fp = ExtendedFloat { mant, exp: sci - (nd - 1) };
+    let mut buf = [0xAAu8; CAP + 8];
+    let room = bound - 1;
+    let n = if sci < nb || sci > pb { write_float_scientific::<f64, F>(&mut buf[..room], fp, sci, o) }
+            else if sci < 0 { write_float_negative_exponent::<f64, F>(&mut buf[..room], fp, sci, o) }
+            else { write_float_positive_exponent::<f64, F>(&mut buf[..room], fp, sci, o) };
+    if n > room { return Err("written length <= documented bound"); }
+    if buf[room] != 0xAA || buf[CAP + 7] != 0xAA { return Err("frame: no byte beyond the caller's slice is written"); }
+    Ok(n)
+}
+
+#[cfg(not(feature = "compact"))]
+pub mod emit {
+    use super::*;
+    crate::harnesses! {
+        /// emit functions into a buffer of exactly the documented size: up to 17 decimal digits, every f64 scientific exponent,
+        /// min_significant_digits 55..=60, breaks -16..=-1 / 1..=16.
+        /// @prop C09 C14
+        /// @feat default radix_format
+        /// @bound mantissa < 10^17; sci_exp in -324..=308; min_significant_digits in 55..=60; breaks in -16..=-1 / 1..=16
+        /// @fn lexical-write-float::options::Options::buffer_size_const
+        /// @fn lexical-write-float::algorithm::{write_float_scientific, write_float_positive_exponent, write_float_negative_exponent}
+        /// @fn lexical-write-float::shared::write_exponent
+        /// @fn lexical-write-integer::jeaiii::{from_u64, from_u32} (fixed-size window at the cursor)
+        /// @assume dispatch rule of the write_float! macro restated in the harness (checked end to end by write_f32_exact_documented_buffer, thorough)
+        /// @timeout 1800
+        #[cfg_attr(kani, kani::unwind(70))]
+        fn emit_exact_documented_buffer() {
+            let mant: u64 = any();
+            let sci: i32 = any();
+            assume(mant >= 1 && mant < 100_000_000_000_000_000);
+            assume(sci >= -324 && sci <= 308);
+            let mind: usize = any(); assume(mind >= 55 && mind <= 60);
+            let nb: i32 = any(); assume(nb >= -16 && nb <= -1);
+            let pb: i32 = any(); assume(pb >= 1 && pb <= 16);
+            let o = opts_for(mind, 0, nb, pb, false);
+            vcheck!(o.is_some(), "these options are valid");
+            if let Some(o) = o {
+                let r = emit_in_bound(mant, sci, &o, nb, pb);
+                vcheck!(r.is_ok(), "a buffer of buffer_size_const bytes suffices for the emit functions");
+                cover(r.is_ok());
+            }
+        }
+    }
+}
+
 crate::harnesses! {
     /// every finite f32, min_significant_digits 58..=60 (the bound is then the computed one, not FORMATTED_SIZE), breaks in -16..=-1 / 1..=9.
     /// @prop C09 C14
+    /// @tier thorough
     /// @feat default radix_format
     /// @bound f32 (all finite bit patterns); min_significant_digits in 58..=60; negative break in -16..=-1; positive break in 1..=9; decimal
     /// @fn lexical-write-float::options::Options::buffer_size_const
     /// @fn lexical-write-float::write::WriteFloat::write_float (check_buffer)
     /// @fn lexical-write-float::algorithm::{write_float_scientific, write_float_positive_exponent, write_float_negative_exponent}
     /// @fn lexical-write-float::shared::write_exponent
-    /// @timeout 3000
+    /// @timeout 7200
     #[cfg_attr(kani, kani::unwind(70))]
     fn write_f32_exact_documented_buffer() {
         const F: u128 = lexical_util::format::STANDARD;
